@@ -168,6 +168,21 @@ func genC20(t *rapid.T) c20Case {
 	g := gensrc.New(t, d.L(), d.R(), d.CL(), d.CR())
 	g.Strays = true
 	c := c20Case{Delims: d, Src: g.Program()}
+	switch rapid.IntRange(0, 39).Draw(t, "longChain") {
+	case 0:
+		// one operand per tree level: hundreds of levels
+		n := rapid.IntRange(300, 900).Draw(t, "sumOperands")
+		c.Src += d.L() + " a" + strings.Repeat(rapid.SampledFrom([]string{" + b", " - 1", " + x.y"}).Draw(t, "sumTerm"), n) + " " + d.R()
+		g.Kinds["long-sum"]++
+	case 1:
+		n := rapid.IntRange(150, 400).Draw(t, "elseIfArms")
+		c.Src += d.L() + "if a" + d.R() + "0" + strings.Repeat(d.L()+"else if b"+d.R()+"x", n) + d.L() + "end" + d.R()
+		g.Kinds["long-else-if-chain"]++
+	case 2:
+		n := rapid.IntRange(200, 600).Draw(t, "pipeStages")
+		c.Src += d.L() + " a" + strings.Repeat(" | f", n) + " " + d.R()
+		g.Kinds["long-pipeline"]++
+	}
 	for k := range g.Kinds {
 		c.Kinds = append(c.Kinds, k)
 	}
